@@ -294,7 +294,7 @@ func planFaults(g *G, L *Layout, events []zsimrt.IOEvent, stubCalls int) ([]*zsi
 		e := cands[g.n("fault-event", len(cands))]
 		f := &zsimrt.Fault{Path: e.Path}
 		isRead := e.Op == "readfile" || e.Op == "open"
-		kinds := []string{"enoent", "enoent", "eacces", "eisdir", "eio"}
+		kinds := []string{"enoent", "enoent", "eacces", "eisdir", "eio", "dangling"}
 		if isRead {
 			kinds = append(kinds, "short", "short", "torn", "flip", "flip", "eio-read")
 			if reads[e.Path] >= 2 {
@@ -421,7 +421,7 @@ func isRequired(L *Layout, p string) bool {
 	return false
 }
 
-var hardFault = map[string]bool{"enoent": true, "eacces": true, "eio": true, "eisdir": true, "eio-read": true}
+var hardFault = map[string]bool{"enoent": true, "eacces": true, "eio": true, "eisdir": true, "eio-read": true, "dangling": true}
 
 // judge applies T1..T5 and E1 to one outcome. baseOK: the fault-free load of the same layout succeeded.
 // requiredByEnabled is set by the engines before judging a faulted load: the env files that services enabled in
